@@ -126,9 +126,10 @@ def r09_4(repo: Repo, rep: Report, c) -> None:
 
 def run(repo: Repo, rep: Report, tier: str) -> None:
     r09_1(repo, rep)
-    from ..core import helper_contracts as hc
-    hc.report(repo, rep, "R09.5", hc.discriminator_lookup(repo), f"{M_BUILDER}::CodeBuilder.get_discriminator")
-    hc.report(repo, rep, "R09.6", hc.dataclass_fields_contract(repo), f"{M_BUILDER}::CodeBuilder.dataclass_fields")
+    if not getattr(rep, "borrowed", False):
+        from ..core import helper_contracts as hc
+        hc.report(repo, rep, "R09.5", hc.discriminator_lookup(repo), f"{M_BUILDER}::CodeBuilder.get_discriminator")
+        hc.report(repo, rep, "R09.6", hc.dataclass_fields_contract(repo), f"{M_BUILDER}::CodeBuilder.dataclass_fields")
     res = fieldblock.analyse(repo)
     rep.analysed.update({"build_paths": res.paths, "distinct_blocks": res.skeletons, "valuations": res.valuations})
     for u in res.undecided:
@@ -167,11 +168,17 @@ def run(repo: Repo, rep: Report, tier: str) -> None:
     for e in c.errors:
         rep.undecide("corpus", e)
     r09_4(repo, rep, c)
+    if getattr(rep, "borrowed", False):
+        return  # another property borrows main-body rules only
     from . import c05 as _c05
     from ..core.report import Only as _Only
     _c05._exception_classes(repo, _Only(rep, {"R05.11"}))
     from ..core import helper_contracts as _hc5
     _hc5.report(repo, rep, "R09.7", _hc5.small_helper_contracts(repo), "mashumaro.core.meta.helpers::get_type_annotations / is_class_var / is_init_var")
+    from ..core.report import Only as _OnlyX
+    from ..core import corpus as _corpusX
+    from . import c14 as _c14x
+    _c14x._ownership(repo, _OnlyX(rep, {"R14.8", "R14.9"}))
 
 _ADDENDUM = " R09.5: get_discriminator(look_in_parents) walks the whole MRO, nearest first, through each class's own Config. R09.6: dataclass_fields drops an inherited Field when the class re-annotates the name without a Field of its own (no inherited alias / options)."
 EXPLANATION += _ADDENDUM
@@ -182,3 +189,6 @@ LEVEL_TEXT += _ADD6
 _ADD18 = ' R09.7: get_type_annotations returns the Annotated metadata in written order; is_class_var / is_init_var keep their confirmed forms.'
 EXPLANATION += _ADD18
 LEVEL_TEXT += _ADD18
+_ADD22 = ' Borrowed: R14.8 / R14.9 (Config.aliases is never written to).'
+EXPLANATION += _ADD22
+LEVEL_TEXT += _ADD22
